@@ -467,13 +467,13 @@ inline Op opTakeEditPutBack(int r, size_t fi, const std::string& what, int vs) {
     Op o; o.name = "R" + std::to_string(r) + "=copy(stored[" + std::to_string(fi) + "])," + what + ",frame(R" + std::to_string(r) + "," + std::to_string(fi) + ")"; o.cls = "frame(copy-of-stored)";
     o.enabled = [fi, what](const World&, const WSnap& s) { if (fi >= s.o.frames.size() || s.o.frames[fi].empty()) return false; if (what == "newpts" && s.o.frames[fi].pts.empty()) return false; if (what == "newan" && s.o.frames[fi].subs.empty()) return false; return true; };
     o.apply = [r, fi, what, vs](World& w, const WSnap& s, CallInfo& ci) {
-        ci.kind = K_FRAME; ci.reg = r; ci.dev = "copy-of-stored/" + what; ci.append = false; ci.idx = fi; w.heldPts[r] = nullptr;
+        ci.kind = K_FRAME; ci.reg = r; ci.dev = "copy-of-stored/" + what; ci.append = false; ci.idx = fi; Points* heldBefore = w.heldPts[r]; w.heldPts[r] = nullptr;
         Frame g(w.c->data().frame(fi)); Shape sh; for (auto& p : s.o.frames[fi].pts) sh.pts.push_back(p.name); if (!s.o.frames[fi].subs.empty()) { for (auto& c : s.o.frames[fi].subs[0]) sh.chans.push_back(c.name); sh.nsub = s.o.frames[fi].subs.size(); }
         Frame fresh = buildFrame(sh, vs); FrSnap want = s.o.frames[fi]; FrSnap in = intendedFrame(sh, vs);
         if (what == "newpts") { g.add(fresh.points()); want.pts = in.pts; } else if (what == "newan") { g.add(fresh.analogs()); want.subs = in.subs; }
         ci.given = want; Frame before = w.R[r]; bool beforeSet = w.Rset[r]; w.R[r] = g; w.Rset[r] = true;
         try { w.c->frame(w.R[r], fi); }
-        catch (...) { w.R[r] = before; w.Rset[r] = beforeSet; throw; }   // not handed over: the copy still shares with the stored frame (that is what a Frame copy is); the caller drops it
+        catch (...) { w.R[r] = before; w.Rset[r] = beforeSet; w.heldPts[r] = heldBefore; throw; }   // not handed over: the copy still shares with the stored frame (that is what a Frame copy is); the caller drops it
     };
     return o;
 }
